@@ -616,6 +616,27 @@ func Contents(names []string) []Content {
 			return J{"$ref": "#/definitions/tgtPrefix/properties/ownerId"}
 		})
 		c.Pointer = true
+		// two pointers whose targets are siblings, the name of one extending the name of the other ("item" / "items"): the
+		// pointer strings are prefixes of one another, so a textual containment test on pointers must stop at a token boundary
+		for _, kinds := range [][2]string{{"complex", "complex"}, {"simple", "complex"}, {"complex", "simple"}} {
+			kinds := kinds
+			mk := func(kind, tag string) J {
+				if kind == "complex" {
+					return simpleObj(tag)
+				}
+				return J{"type": "string", "description": tag}
+			}
+			cls := "pointer-" + kinds[1]
+			c = add("twoPointersPrefixSiblings["+kinds[0]+","+kinds[1]+"]", cls, func(b *BundleSpec, s int) J {
+				b.Add(RootFile, P(J{"type": "object", "properties": J{"item": mk(kinds[0], "short"), "items": mk(kinds[1], "long")}}, "definitions", "tgtCart"))
+				b.use("tgtCart")
+				b.Add(RootFile, P(J{"type": "object", "properties": J{"first": J{"$ref": "#/definitions/tgtCart/properties/item"}}}, "definitions", "cartOrder"))
+				b.use("cartOrder")
+				b.HasPointer = true
+				return J{"$ref": "#/definitions/tgtCart/properties/items"}
+			})
+			c.Pointer = true
+		}
 		c = add("pointerNestedInTarget", "pointer-complex", func(b *BundleSpec, s int) J {
 			// the target of the pointer contains, deeper, another pointer to a direct sub-schema of the same definition
 			b.Add(RootFile, P(J{"type": "object", "properties": J{
